@@ -150,9 +150,21 @@ func c08Round(run *ev.Run, o c08One, buf gopacket.SerializeBuffer, rdec *c08Deco
 	viol := func(key, what string, detail any) {
 		run.Violation("C08:"+o.Layer+":"+key, fmt.Sprintf("[%s buffer, payload %d bytes] %s", bufKind, plen, what), cs, detail)
 	}
+	if o.Reused {
+		// whatever was sent before is still in the buffer's memory
+		gopacket.SerializeLayers(buf, serOpts, gopacket.Payload(rbytes(r, 96+r.Intn(64))))
+	}
+	cur := buf
+	// second: the re-serialisation of a decoded value goes into a fresh (zeroed) buffer
+	// when the first went into the used one, so bytes a serialiser never writes show up
+	second := func() {
+		if o.Reused {
+			cur = gopacket.NewSerializeBuffer()
+		}
+	}
 	ser := func(l gopacket.SerializableLayer, payload []byte) ([]byte, bool) {
 		var err error
-		pv, st := safe(func() { err = gopacket.SerializeLayers(buf, serOpts, l, gopacket.Payload(payload)) })
+		pv, st := safe(func() { err = gopacket.SerializeLayers(cur, serOpts, l, gopacket.Payload(payload)) })
 		if pv != nil {
 			viol("serialise-panic", fmt.Sprintf("panic: %v\n%s", pv, trimStack(st)), nil)
 			return nil, false
@@ -161,7 +173,7 @@ func c08Round(run *ev.Run, o c08One, buf gopacket.SerializeBuffer, rdec *c08Deco
 			viol("serialise-error", err.Error(), nil)
 			return nil, false
 		}
-		return append([]byte(nil), buf.Bytes()...), true
+		return append([]byte(nil), cur.Bytes()...), true
 	}
 	dec := func(l interface {
 		DecodeFromBytes([]byte, gopacket.DecodeFeedback) error
@@ -213,6 +225,7 @@ func c08Round(run *ev.Run, o c08One, buf gopacket.SerializeBuffer, rdec *c08Deco
 			viol("payload-mismatch", "inner payload differs", ev.Hex(b1))
 			return
 		}
+		second()
 		b2, ok := ser(&y, y.LayerPayload())
 		if ok && !bytes.Equal(b1, b2) {
 			viol("reserialise-mismatch", fmt.Sprintf("first % x second % x", b1, b2), nil)
@@ -313,6 +326,7 @@ func c08Round(run *ev.Run, o c08One, buf gopacket.SerializeBuffer, rdec *c08Deco
 			viol("trailer-layout", "unauthenticated packet has a trailer", ev.Hex(b1))
 			return
 		}
+		second()
 		b2, ok := ser(&y, y.LayerPayload())
 		if ok && !bytes.Equal(b1, b2) {
 			viol("reserialise-mismatch", fmt.Sprintf("first % x second % x", b1, b2), nil)
@@ -359,6 +373,7 @@ func c08Round(run *ev.Run, o c08One, buf gopacket.SerializeBuffer, rdec *c08Deco
 				return
 			}
 		}
+		second()
 		b2, ok := ser(&y, y.LayerPayload())
 		if ok && !bytes.Equal(b1, b2) {
 			viol("reserialise-mismatch", fmt.Sprintf("first % x second % x", b1, b2), nil)
@@ -427,6 +442,7 @@ func c08Round(run *ev.Run, o c08One, buf gopacket.SerializeBuffer, rdec *c08Deco
 			viol("payload-mismatch", fmt.Sprintf("decoded payload % x, want % x", y.LayerPayload(), inner), ev.Hex(b1))
 			return
 		}
+		second()
 		b2, ok := ser(y, append([]byte(nil), y.LayerPayload()...))
 		if ok {
 			p2, prob2 := refDecrypt(b2)
@@ -467,8 +483,9 @@ func c08Round(run *ev.Run, o c08One, buf gopacket.SerializeBuffer, rdec *c08Deco
 				return
 			}
 		}
-		if err := gopacket.SerializeLayers(buf, serOpts, &y); err != nil || !bytes.Equal(buf.Bytes(), b1) {
-			viol("reserialise-mismatch", fmt.Sprintf("err %v first % x second % x", err, b1, buf.Bytes()), nil)
+		second()
+		if err := gopacket.SerializeLayers(cur, serOpts, &y); err != nil || !bytes.Equal(cur.Bytes(), b1) {
+			viol("reserialise-mismatch", fmt.Sprintf("err %v first % x second % x", err, b1, cur.Bytes()), nil)
 		}
 		run.Nontrivial(fmt.Sprintf("rakp1 %d %v %s", len(x.Username), x.PrivilegeLevelLookup, bufKind))
 	}
